@@ -92,8 +92,14 @@ def pidTok : Str → Option (Int × Str)
   | '-' :: t => (intTok t).map (fun nr => (-(nr.1 : Int), nr.2))
   | t => (intTok t).map (fun nr => ((nr.1 : Int), nr.2))
 
-/-- the trailing class `[\s+-.0-9]` (`+-.` is the range `+ , - .`) -/
-def isTail (c : Char) : Bool := isWs c || isDig c || c = '+' || c = ',' || c = '-' || c = '.'
+/-- a character of a trailing field, `[+-.0-9eE]` (`+-.` is the range `+ , - .`) -/
+def isTailTok (c : Char) : Bool := isDig c || c = '+' || c = ',' || c = '-' || c = '.' || c = 'e' || c = 'E'
+
+/-- the end of `re_swc`, `((?:\s+[+-.0-9eE]+)*)\s*$`: blank-separated fields of trailing characters, then blanks.
+Matches iff every character is a blank or a trailing character and the rest does not start with a field;
+the group is non-empty iff there is a field.  `none` = no match. -/
+def tailFields (t : Str) : Option Bool :=
+  if t.all (fun c => isWs c || isTailTok c) && (match t with | [] => true | c :: _ => isWs c) then some (t.any isTailTok) else none
 
 structure Row where
   id : Nat
@@ -132,8 +138,8 @@ def parseData (nx : Nat) (l : Str) : Option (Row × Bool) := do
   let s ← needWs s
   let (pid, s) ← pidTok s
   let (ex, s) ← extras nx s
-  let t := dropWs s
-  if t.all isTail then some (⟨id, ty, x, y, z, r, pid, ex⟩, !t.isEmpty) else none
+  let tl ← tailFields s
+  pure (⟨id, ty, x, y, z, r, pid, ex⟩, tl)
 
 inductive Kind where
   | data (row : Row) (ignoredTail : Bool)
